@@ -18,7 +18,7 @@
 #include "vsched.h"
 #include "vutil.h"
 
-typedef EbSvtAv1EncConfiguration Cfg;
+#include "param_fields.h"
 typedef struct { const char *name; size_t off, size; int sgn; int count; } Field;
 #define FLD(n) { #n, offsetof(Cfg, n), sizeof(((Cfg *)0)->n), ((__typeof__(((Cfg *)0)->n))-1) < 0, 1 }
 #define ARR(n) { #n, offsetof(Cfg, n), sizeof(((Cfg *)0)->n[0]), ((__typeof__(((Cfg *)0)->n[0]))-1) < 0, \
@@ -87,6 +87,10 @@ static int set_field(Cfg *c, const char *key, const char *val) {
         default: return -1;
         }
         return 0;
+    }
+    { /* members of the manual prediction structure table: pred_struct.<i>.<member>[.<j>] (shared element table of param_fields.h) */
+        int pi, pj, k = pf_find(key, &pi, &pj);
+        if (k >= 0 && !pfields[k].ptr) { pf_put(c, &pfields[k], pi, pj, strtoll(val, NULL, 0)); return 0; }
     }
     return -1;
 }
